@@ -1,28 +1,27 @@
 //! Generic supervisor / worker / replay logic shared by all dbsim checks.
 
-use crate::common::*;
-use crate::registry::{self, CheckDef};
+use super::common::*;
 use serde_json::{Value, json};
-use simcore::evidence::Evidence;
-use simcore::supervise::{FanCfg, WorkerCtx, fan_out};
+use crate::evidence::Evidence;
+use crate::supervise::{FanCfg, WorkerCtx, fan_out};
 use std::collections::{BTreeMap, BTreeSet};
 use std::process::{Command, Stdio};
 use std::time::{Duration, Instant};
 
 fn tmp_dir() -> String {
-    let d = format!("{}/target/tmp", simcore::verif_dir());
+    let d = format!("{}/target/tmp", crate::verif_dir());
     let _ = std::fs::create_dir_all(&d);
     d
 }
 
-pub fn worker(args: &[String]) -> i32 {
+pub fn worker(eng: &Engine, args: &[String]) -> i32 {
     install_panic_hook();
     let id = &args[2];
     let tier = Tier::parse(&args[3]);
     let seed: u64 = args[4].parse().unwrap_or(1);
-    let Some(def) = registry::find(id) else { return 2 };
+    let Some(def) = (eng.find)(id) else { return 2 };
     let ctx = WorkerCtx::from_args(args);
-    set_alloc_cap(Some(ALLOC_CAP));
+    set_alloc_cap(Some(eng.alloc_cap));
     for run in ctx.my_runs() {
         if ctx.out_of_time() {
             break;
@@ -50,7 +49,6 @@ pub fn worker(args: &[String]) -> i32 {
     0
 }
 
-pub const ALLOC_CAP: usize = 96 << 20;
 
 fn load_plan(file: &str) -> Result<(Value, Option<Value>), String> {
     let text = std::fs::read_to_string(file).map_err(|e| format!("{file}: {e}"))?;
@@ -62,9 +60,9 @@ fn load_plan(file: &str) -> Result<(Value, Option<Value>), String> {
     }
 }
 
-pub fn exec_plan(id: &str, file: &str) -> i32 {
+pub fn exec_plan(eng: &Engine, id: &str, file: &str) -> i32 {
     install_panic_hook();
-    let Some(def) = registry::find(id) else { return 2 };
+    let Some(def) = (eng.find)(id) else { return 2 };
     let (plan, _) = match load_plan(file) {
         Ok(p) => p,
         Err(e) => {
@@ -72,7 +70,7 @@ pub fn exec_plan(id: &str, file: &str) -> i32 {
             return 2;
         }
     };
-    set_alloc_cap(Some(ALLOC_CAP));
+    set_alloc_cap(Some(eng.alloc_cap));
     let mut t = Trials::replay();
     let rep = (def.exec)(&plan, &mut t);
     for v in &rep.viols {
@@ -248,7 +246,7 @@ fn shrink(def: &CheckDef, plan: &Value, class: &str, budget: Duration) -> Value 
         return plan.clone();
     }
     let mut n = 0u64;
-    let min = simcore::shrink::ddmin(steps, budget, |cand| {
+    let min = crate::shrink::ddmin(steps, budget, |cand| {
         n += 1;
         let p = with_steps(plan, def.steps, cand);
         run_plan(def.id, &p, &format!("s{n}")).classes(def.id).iter().any(|c| c == class)
@@ -300,7 +298,7 @@ fn aggregate(runs: &[Value]) -> Agg {
     a
 }
 
-fn fan(def: &CheckDef, tier: Tier, seed: u64, runs: u64, workers: usize, cap_s: u64, stop_first: bool) -> simcore::supervise::FanOut {
+fn fan(def: &CheckDef, tier: Tier, seed: u64, runs: u64, workers: usize, cap_s: u64, stop_first: bool) -> crate::supervise::FanOut {
     fan_out(FanCfg {
         exe: std::env::current_exe().unwrap(),
         args: vec!["worker".into(), def.id.into(), tier.name().into(), seed.to_string()],
@@ -309,7 +307,7 @@ fn fan(def: &CheckDef, tier: Tier, seed: u64, runs: u64, workers: usize, cap_s: 
         wall_cap: Duration::from_secs(cap_s),
         // C07 trials are millisecond-scale and may spin without any storage call on damaged data:
         // a short silence window keeps such observations cheap
-        hang_s: simcore::env_u64("VERIF_HANG_S", if def.id == "C07" { 4 } else { 30 }),
+        hang_s: crate::env_u64("VERIF_HANG_S", if def.id == "C07" { 4 } else { 30 }),
         max_deaths_per_worker: 30,
         stop_on_first_violation: stop_first,
     })
@@ -335,9 +333,9 @@ fn determinism(def: &CheckDef, tier: Tier, seed: u64, n: u64) -> Result<u64, Str
     Ok(compared)
 }
 
-pub fn selftest(id: &str, n: u64) -> i32 {
-    let Some(def) = registry::find(id) else { return 2 };
-    match determinism(&def, Tier::Quick, simcore::seed_from_env(), n) {
+pub fn selftest(eng: &Engine, id: &str, n: u64) -> i32 {
+    let Some(def) = (eng.find)(id) else { return 2 };
+    match determinism(&def, Tier::Quick, crate::seed_from_env(), n) {
         Ok(c) => {
             println!("selftest {id}: {c} runs compared, identical");
             0
@@ -349,21 +347,21 @@ pub fn selftest(id: &str, n: u64) -> i32 {
     }
 }
 
-pub fn check(id: &str, tier: Tier) -> i32 {
+pub fn check(eng: &Engine, id: &str, tier: Tier) -> i32 {
     let t0 = Instant::now();
-    let seed = simcore::seed_from_env();
-    let Some(def) = registry::find(id) else {
-        eprintln!("harness error: dbsim does not serve {id}");
+    let seed = crate::seed_from_env();
+    let Some(def) = (eng.find)(id) else {
+        eprintln!("harness error: {} does not serve {id}", eng.name);
         return 2;
     };
-    println!("[dbsim] property={id} tier={} VERIF_SEED={seed}", tier.name());
+    println!("[{}] property={id} tier={} VERIF_SEED={seed}", eng.name, tier.name());
 
     // ---- known findings: replay each, report, remember signatures
-    let known = simcore::findings::known_for(id);
+    let known = crate::findings::known_for(id);
     let mut known_sigs: BTreeSet<String> = BTreeSet::new();
     for f in &known {
         known_sigs.insert(f.signature.clone());
-        let file = format!("{}/{}", simcore::verif_dir(), f.replay);
+        let file = format!("{}/{}", crate::verif_dir(), f.replay);
         let o = run_plan_file(id, &file, 600);
         if o.classes(id).iter().any(|c| *c == f.signature) {
             println!("KNOWN-FINDING: property={id} {} [signature {}; replay {}]", f.what, f.signature, f.replay);
@@ -373,9 +371,9 @@ pub fn check(id: &str, tier: Tier) -> i32 {
     }
 
     // ---- search
-    let runs = simcore::env_u64("VERIF_RUNS", (def.runs)(tier));
-    let cap = simcore::budget_s((def.wall_cap_s)(tier));
-    let out = fan(&def, tier, seed, runs, simcore::workers(), cap, false);
+    let runs = crate::env_u64("VERIF_RUNS", (def.runs)(tier));
+    let cap = crate::budget_s((def.wall_cap_s)(tier));
+    let out = fan(&def, tier, seed, runs, crate::workers(), cap, false);
     let agg = aggregate(&out.runs);
 
     let mut harness: Vec<String> = out.harness_errors.clone();
@@ -426,7 +424,7 @@ pub fn check(id: &str, tier: Tier) -> i32 {
     extra.insert("evaluation_unit".into(), json!(def.eval_unit));
     extra.insert("evaluations_per_hour".into(), json!(per_hour(agg.evals)));
     extra.insert("distinct_programs".into(), json!(agg.programs.len()));
-    extra.insert("simulated_time".into(), json!("no clock exists in the storage/database layer; progress is counted in simulated file-system calls (counters fs.*)"));
+    extra.insert("simulated_time".into(), json!(eng.simulated_time));
     let (faults, rest): (BTreeMap<_, _>, BTreeMap<_, _>) = agg.counters.iter().map(|(k, v)| (k.clone(), *v)).partition(|(k, _)| k.starts_with("fault."));
     let (probes, other): (BTreeMap<_, _>, BTreeMap<_, _>) = rest.into_iter().partition(|(k, _)| k.starts_with("probe."));
     extra.insert("faults_fired".into(), json!(faults));
@@ -496,10 +494,10 @@ pub fn check(id: &str, tier: Tier) -> i32 {
                 min = pinned;
             }
         }
-        let dir = format!("{}/replays", simcore::verif_dir());
+        let dir = format!("{}/replays", crate::verif_dir());
         let _ = std::fs::create_dir_all(&dir);
         let path = format!("{dir}/{id}-seed{seed}-run{run}.json");
-        let doc = json!({"property": id, "engine": "dbsim", "seed": seed, "run": run, "tier": tier.name(), "class": class, "detail": detail_min,
+        let doc = json!({"property": id, "engine": eng.name, "seed": seed, "run": run, "tier": tier.name(), "class": class, "detail": detail_min,
             "steps_before_minimisation": get_steps(plan, def.steps).len(), "steps": get_steps(&min, def.steps).len(), "plan": min});
         std::fs::write(&path, serde_json::to_string_pretty(&doc).unwrap()).unwrap();
         // fresh-process confirmation
@@ -517,7 +515,7 @@ pub fn check(id: &str, tier: Tier) -> i32 {
     }
 
     match ev.write() {
-        Ok(p) => println!("[dbsim] {id} held: {} runs, {} {} ({} distinct non-trivial), {:.1}s; evidence {p}", agg.runs, agg.evals, def.eval_unit, agg.nontrivial, wall),
+        Ok(p) => println!("[{}] {id} held: {} runs, {} {} ({} distinct non-trivial), {:.1}s; evidence {p}", eng.name, agg.runs, agg.evals, def.eval_unit, agg.nontrivial, wall),
         Err(e) => {
             eprintln!("harness error: cannot write evidence: {e}");
             return 2;
